@@ -380,6 +380,12 @@ def o4(ctx: Ctx, ties_matter: bool = True):
     obs.append(ctx.ob("C08.O4", f, Aexp, status=st_a, detail="active = number of is_active demes on the target level" if st_a == OK and why_a.startswith("cannot") else why_a, construct="active-count"))
     # ---- C = concatenation of candidates[d].individuals over the parents D of this level; later filtered lists are exactly those
     cdefs = [dd for dd in defs.get(C, []) if not (isinstance(dd, ast.Call) and norm(dd.func) == "sorted" and dd.args and norm(dd.args[0]) == C)]
+    # C = sorted(<comprehension>, ...): the list is built and sorted in one expression
+    sorted_in_def = None
+    if len(cdefs) == 1 and isinstance(cdefs[0], ast.Call) and norm(cdefs[0].func) == "sorted" and cdefs[0].args and isinstance(cdefs[0].args[0], (ast.ListComp, ast.GeneratorExp)):
+        sorted_in_def = cdefs[0]
+        comp0 = cdefs[0].args[0]
+        cdefs = [ast.copy_location(ast.ListComp(elt=comp0.elt, generators=comp0.generators), comp0)]
     ok_c = False
     D = None
     if len(cdefs) == 1 and isinstance(cdefs[0], ast.ListComp) and len(cdefs[0].generators) == 2:
@@ -407,6 +413,9 @@ def o4(ctx: Ctx, ties_matter: bool = True):
             sorts.append((n, n.value))
         if isinstance(n, ast.Assign) and norm(n.targets[0]) == C and isinstance(n.value, ast.Call) and norm(n.value.func) == "sorted" and n.value.args and norm(n.value.args[0]) == C:
             sorts.append((n, n.value))
+    if sorted_in_def is not None and not sorts:
+        def_stmt = next((n for n in ast.walk(L) if isinstance(n, ast.Assign) and n.value is sorted_in_def), L)
+        sorts.append((def_stmt, sorted_in_def))
     if len(sorts) != 1:
         obs.append(ctx.ob("C08.O4", f, L, status=VIOLATION if not sorts else INCONCLUSIVE, detail=f"`{C}` is sorted {len(sorts)} times before the pivot is read (the pivot index only bounds the survivors of a sorted list)", construct="sort"))
         return obs
@@ -534,8 +543,11 @@ def o5(ctx: Ctx):
         base, off = _split_offset(arg)
         bt = canon(base)
         msl = re.fullmatch(r"len\(" + re.escape(tree_p) + r"\._?levels\[:-(\d+)\]\)", bt)
+        msl2 = re.fullmatch(r"len\(" + re.escape(tree_p) + r"\._?levels\[(\d+):\]\)", bt)
         if msl:
             st_l = OK if (int(msl.group(1)) - off) == 1 else VIOLATION
+        elif msl2:
+            st_l = OK if (int(msl2.group(1)) - off) == 1 else VIOLATION  # len(levels[k:]) = height - k
         elif bt in (f"len({tree_p}.levels)", f"len({tree_p}._levels)", f"{tree_p}.height"):
             st_l = OK if off == -1 else VIOLATION
     elif m:
